@@ -240,6 +240,21 @@ pub fn check_case(ctx: &mut Ctx, case: &Case) {
     }
 }
 
+/// long names (15-60 bytes) mixing ASCII and multi-byte words, optionally with `|` inside: every error message or span
+/// computation that cuts, pads or indexes a name by bytes meets a multi-byte character at some offset
+fn long_name(rng: &mut crate::core::Rng, pipes: bool) -> String {
+    const W: &[&str] = &["fruits", "et", "légumes", "野菜と果物", "乳製品とたまご", "produce", "crème fraîche", "a", "😀", "œufs", "x"];
+    let n = rng.range(2, 7);
+    let mut s = String::new();
+    for k in 0..n {
+        if k > 0 {
+            s.push_str(if pipes && rng.chance(1, 3) { "|" } else { " " });
+        }
+        s.push_str(*rng.pick(W));
+    }
+    s
+}
+
 fn random_file(rng: &mut crate::core::Rng) -> String {
     let names = ["apple", "apples", "milk", "égg", "bay leaves", "a", "b", "x y", "", "tuna", "[x]", "a//b"];
     let cats = ["produce", "dairy", "c", "d e", " padded ", "", "a|b", "produce"];
@@ -249,7 +264,12 @@ fn random_file(rng: &mut crate::core::Rng) -> String {
         match rng.below(10) {
             0..=2 => {
                 s.push('[');
-                s.push_str(*rng.pick(&cats));
+                if rng.chance(1, 4) {
+                    let pipes = rng.chance(1, 3);
+                    s.push_str(&long_name(rng, pipes));
+                } else {
+                    s.push_str(*rng.pick(&cats));
+                }
                 s.push(']');
             }
             3 => {}
@@ -260,7 +280,11 @@ fn random_file(rng: &mut crate::core::Rng) -> String {
                     if k > 0 {
                         s.push_str(*rng.pick(&["|", " | ", "| "]));
                     }
-                    s.push_str(*rng.pick(&names));
+                    if rng.chance(1, 5) {
+                        s.push_str(&long_name(rng, false));
+                    } else {
+                        s.push_str(*rng.pick(&names));
+                    }
                     if rng.chance(1, 6) {
                         s.push_str(&format!("{}", rng.below(50)));
                     }
